@@ -26,7 +26,7 @@ from vp.env import install
 from tornado import iostream
 from tornado.ioloop import IOLoop
 
-from harness._iostream_rig import FD, FakeFdStream, Kernel, conc, fire, registered
+from harness._iostream_rig import BA, FD, MV, FakeFdStream, Kernel, conc, fire, registered
 
 #        0    1 2   3 4  5  6 7   8 9  10 11 12 13 14 15 16 17
 DATA = b"a\r\nbc\n\r\n\r\nde\r\n\r\nfg"
@@ -66,7 +66,7 @@ def _issue(s, kind, n, m, holder):
     if kind == RBP:
         return s.read_bytes(n, partial=True)
     if kind == RI or kind == RIP:
-        buf = bytearray(b"\xee" * n)
+        buf = BA(b"\xee" * n)
         holder.append(buf)
         return s.read_into(buf, partial=(kind == RIP))
     if kind == RU:
@@ -83,12 +83,28 @@ def _silent(k):
     return k.ri >= len(k.rscript)
 
 
+_TRACK = {"after_failed": False}
+KEY_AFTER_FAILED = "read_after_failed_read"
+
+
+def _classify(fn, args):
+    """Known-finding shape (plain replay only): the violation shows on a read issued after an earlier read
+    of the same stream had failed at close (stale read state, see the C11 report)."""
+    _TRACK["after_failed"] = False
+    try:
+        fn(**args)
+    except Exception:
+        return KEY_AFTER_FAILED if _TRACK["after_failed"] else None
+    return None
+
+
 def _drive_reads(env, s, k, reqs, pos):
     """Issue the requests one after the other, pumping READ events while one is pending.
     Returns the stream position after the last completed read."""
+    _TRACK["after_failed"] = False
     for kind, n, m in reqs:
         kind = conc(kind, 0, 6)
-        n = conc(n, 0, 8)          # reaches bytearray(n) / slices: concrete per path; m stays symbolic
+        n = conc(n, 0, 8)          # reaches BA(n) / slices: concrete per path; m stays symbolic
         holder = []
         was_closed = s.closed()
         try:
@@ -141,8 +157,13 @@ def _drive_reads(env, s, k, reqs, pos):
                 assert not _satisfiable(kind, n, m, pos, D, True), \
                     "stream closed: read failed although buffered bytes satisfy it"
                 reached("failed_at_eof")
+            if KEY_AFTER_FAILED in P.exclude:
+                break               # recorded finding excluded: do not read on after a failed read
+            _TRACK["after_failed"] = True
             continue
         res = fut.result()
+        if _TRACK["after_failed"]:
+            reached("read_after_failed_read")
         # ---- contract of a completed read
         if kind == RI or kind == RIP:
             assert type(res) is int, "read_into returned %r" % (res,)
@@ -205,31 +226,33 @@ def _satisfiable(kind, n, m, pos, D, closed):
     return m < 0 or e - pos <= m
 
 
-def _pre_req(kind, n, m):
+def _pre_req(kind, n, m, sparse):
     if not 0 <= kind <= 6:
         return False
     if kind <= RIP:
+        if sparse:
+            return (n == 1 or n == P.NB) and m == -1
         return 0 <= n <= P.NB and m == -1
     if kind == RC:
         return n == 0 and m == -1
-    return 0 <= n <= 2 and -1 <= m <= P.MB
+    return 0 <= n <= P.J and -1 <= m <= P.MB
 
 
 # ------------------------------------------------------------------------------------------
-# one request from a symbolic pre-state (pos0 bytes consumed, b0 bytes buffered), then a probe read
+# one request from a symbolic pre-state (pos0 bytes consumed, b0 bytes buffered)
 
 def pre_one(kind: int, n: int, m: int, pos0: int, b0: int, chunk: int, rscript: List[int],
-            eofpos: int, cause: int, probe: int) -> bool:
-    if not _pre_req(kind, n, m):
+            eofpos: int, cause: int) -> bool:
+    if not _pre_req(kind, n, m, False):
         return False
     if not (1 <= pos0 <= P.P0 and 0 <= b0 <= P.B0 and 1 <= chunk <= P.C and len(rscript) <= P.K):
         return False
     for a in rscript:
         if not 0 <= a <= P.A:
             return False
-    if not (pos0 + b0 <= eofpos <= len(DATA) and 0 <= cause <= 1 and 0 <= probe <= 2):
+    if not (pos0 + b0 <= eofpos <= len(DATA) and 0 <= cause <= 1):
         return False
-    return in_shard(kind)
+    return in_shard(kind + 7 * (pos0 - 1))
 
 
 _R_UNITS = ["iostream.BaseIOStream.read_bytes", "iostream.BaseIOStream.read_into",
@@ -252,11 +275,11 @@ _R_STUBS = ["FakeFdStream scripted kernel (harness/_iostream_rig.py): each read_
 
 @harness(
     pre=pre_one,
-    quick=dict(NB=4, MB=4, P0=2, B0=2, C=3, K=3, A=3, timeout=100, reach_timeout=60),
-    thorough=dict(NB=6, MB=6, P0=3, B0=3, C=4, K=4, A=4, timeout=1500, reach_timeout=120),
-    nshards=dict(quick=7, thorough=7),
+    quick=dict(NB=3, MB=3, J=2, P0=2, B0=2, C=3, K=2, A=3, timeout=100, reach_timeout=60),
+    thorough=dict(NB=5, MB=5, J=2, P0=3, B0=3, C=4, K=3, A=4, timeout=1500, reach_timeout=120),
+    nshards=dict(quick=14, thorough=21),
     reach=["unsatisfiable_closed", "within_max_bytes", "partial_short", "failed_at_eof", "left_pending",
-           "until_close_done", "refused_after_close"],
+           "until_close_done"],
     units=_R_UNITS, stubs=_R_STUBS,
     outside=["streams longer than 18 bytes / multi-KB buffers (only the buffer-doubling logic with tiny sizes)",
              "max_buffer_size overflow (StreamBufferFullError)", "transport errors other than EOF (C13)",
@@ -264,7 +287,7 @@ _R_STUBS = ["FakeFdStream scripted kernel (harness/_iostream_rig.py): each read_
              "more than K scripted arrivals"],
 )
 def h_read_one(kind: int, n: int, m: int, pos0: int, b0: int, chunk: int, rscript: List[int],
-               eofpos: int, cause: int, probe: int):
+               eofpos: int, cause: int):
     with install() as env:
         pos0 = conc(pos0, 1, 8)
         b0 = conc(b0, 0, 8)
@@ -276,18 +299,17 @@ def h_read_one(kind: int, n: int, m: int, pos0: int, b0: int, chunk: int, rscrip
         assert f0.done() and f0.result() == DATA[:pos0]
         assert s._read_buffer_size == b0
         s.read_chunk_size = chunk
-        tail = [(RBP, 2, -1)] if probe == 1 else [(RC, 0, -1)] if probe == 2 else []
-        _drive_reads(env, s, k, [(kind, n, m)] + tail, pos0)
+        _drive_reads(env, s, k, [(kind, n, m)], pos0)
 
 
 # ------------------------------------------------------------------------------------------
 # sequences of requests from the start of the stream
 
 def pre_seq(reqs: List[Tuple[int, int, int]], chunk: int, rscript: List[int], eofpos: int, cause: int) -> bool:
-    if not (1 <= len(reqs) <= P.R and 1 <= chunk <= P.C and len(rscript) <= P.K):
+    if not (1 <= len(reqs) <= P.R and P.CLO <= chunk <= P.C and len(rscript) <= P.K):
         return False
     for kind, n, m in reqs:
-        if not _pre_req(kind, n, m):
+        if not _pre_req(kind, n, m, True):
             return False
     for a in rscript:
         if not 0 <= a <= P.A:
@@ -299,10 +321,12 @@ def pre_seq(reqs: List[Tuple[int, int, int]], chunk: int, rscript: List[int], eo
 
 @harness(
     pre=pre_seq,
-    quick=dict(R=2, NB=3, MB=3, C=2, K=2, A=4, E=8, timeout=100, reach_timeout=60),
-    thorough=dict(R=3, NB=4, MB=4, C=3, K=3, A=4, E=12, timeout=1500, reach_timeout=120),
+    quick=dict(R=2, NB=3, MB=3, J=1, CLO=2, C=2, K=2, A=4, E=8, timeout=100, reach_timeout=60),
+    thorough=dict(R=3, NB=3, MB=4, J=2, CLO=1, C=3, K=2, A=4, E=12, timeout=1500, reach_timeout=120),
     nshards=dict(quick=49, thorough=49),
-    reach=["unsatisfiable_closed", "failed_at_eof", "left_pending", "until_close_done"],
+    reach=["unsatisfiable_closed", "failed_at_eof", "left_pending", "until_close_done", "refused_after_close",
+           "read_after_failed_read"],
+    classify=lambda **a: _classify(h_read_seq, a),
     units=_R_UNITS, stubs=_R_STUBS[:3],
     outside=["more than R requests / K scripted arrivals", "see h_read_one"],
 )
